@@ -19,7 +19,8 @@ RULE = ("(a) exhaustive: every byte 0..255 as a one-character input (as str wher
         "so that what an earlier call leaves behind cannot change a later call; (e) Python lists of 1..5 rows that are already encoded, each row with "
         "an alphabet of a small group (same letters in another order, or one extending another; or the offset encodings for qualities, digits and CIGAR lengths), "
         "handed to as_encoded_array with and without a target, or wrapped again with EncodedArray(row, target); "
-        "(f) every short k-mer over alphabets of 2, 3, 4, 5, 9 and 21 letters encoded as one code (KmerEncoding) and read back as text. "
+        "(f) every short k-mer over alphabets of 2, 3, 4, 5, 9 and 21 letters encoded as one code (KmerEncoding) and read back as text, and arrays of k-mers over "
+        "two alphabets meeting in as_encoded_array of a list, np.concatenate or item assignment. "
         "Oracle: a Python model of each alphabet (a character is accepted iff its upper-case form, for letters only, is a member). Accepted "
         "input decodes to the upper-cased original row for row with the ragged shape unchanged; rejected input raises EncodingError; "
         "re-targeting yields data whose text equals the source text or raises. "
@@ -31,7 +32,8 @@ ASSUMPTIONS = [
 REQUIRED_CLASSES = ["byte-exhaustive", "foreign-char", "mixed-case", "ragged-with-empty-row", "pair-retarget", "pair-change_encoding",
                     "view-input", "string-encoding", "retarget-history", "history-prefix-then-beyond", "history-encode-edit-encode-again", "foreign-char-beyond-one-byte",
                     "list-of-rows-in-several-encodings", "list-of-rows-same-letters-other-order", "list-of-rows-in-one-encoding",
-                    "rows-in-offset-encodings", "kmer-of-fewer-than-four-letters", "kmer-of-four-letters", "kmer-of-more-than-four-letters"]
+                    "rows-in-offset-encodings", "kmer-of-fewer-than-four-letters", "kmer-of-four-letters", "kmer-of-more-than-four-letters",
+                    "kmer-arrays-over-two-alphabets"]
 BOUNDS = {"quick": "(a) complete: 256 bytes x 10 encodings x 2 routes; (b) 1500 strings per alphabet; (c) all 90 ordered pairs x 150 strings; (d) 6000 histories; (e) 1500 row lists",
           "thorough": "(a) complete; (b) 15000 per alphabet; (c) all pairs x 1500 strings; (d) 240000 histories; (e) 15000 row lists"}
 BUDGET_S = {"quick": 150, "thorough": 900}
@@ -123,6 +125,9 @@ def classify(case):
         if case["rows"][0]["alpha"].startswith("num:"):
             cl.append("rows-in-offset-encodings")
             nontrivial = nontrivial or bool(case.get("target") and case["target"] != case["rows"][0]["alpha"])
+    elif kind == "kmer-mix":
+        nontrivial = len({r["alpha"] for r in case["rows"]}) == 2
+        cl.append("kmer-arrays-over-two-alphabets" if nontrivial else "kmer-arrays-over-one-alphabet")
     elif kind == "kmer":
         cl.append("kmer-of-" + ("fewer-than-four" if len(letters_of(case["alpha"])) < 4 else ("four" if len(letters_of(case["alpha"])) == 4 else "more-than-four")) + "-letters")
         nontrivial = len(set(case["text"])) >= 2
@@ -299,6 +304,37 @@ def check(case, stats=None):
             got, want = "".join(got), "".join(want)
         if got != want:
             return [Failure("C06:list-of-encoded-rows-changes-text", {"rows": case["rows"], "target": case.get("target"), "result_text": got})]
+        return []
+    if kind == "kmer-mix":
+        # arrays of k-mers (same k) over two alphabets meeting in one operation: the words come back as they were, or the operation refuses
+        from bionumpy.encodings.kmer_encodings import KmerEncoding
+        from bionumpy.encoded_array import as_encoded_array
+        k = case["k"]
+        arrays = [KmerEncoding(enc_of(r["alpha"]), k).encode(list(r["words"])) for r in case["rows"]]
+        want = [w for r in case["rows"] for w in r["words"]]
+
+        def words_of(x):
+            from bionumpy.encoded_array import EncodedRaggedArray
+            if isinstance(x, EncodedRaggedArray):
+                return [w for row in x.tolist() for w in row.split(",") if w]
+            return [w for w in x.to_string().split(",") if w]
+        try:
+            if case["how"] == "list":
+                res = as_encoded_array(arrays)
+            elif case["how"] == "concat":
+                res = np.concatenate(arrays)
+            else:
+                res = arrays[0].copy()
+                m = min(len(arrays[0]), len(arrays[1]))
+                res[:m] = arrays[1][:m]
+                want = list(case["rows"][1]["words"][:m]) + list(case["rows"][0]["words"][m:])
+            got = words_of(res)
+        except Exception:
+            if stats is not None:
+                stats.raised_allowed["kmer-mix"] += 1
+            return []
+        if got != want:
+            return [Failure("C06:kmers-of-two-alphabets-change-text", {"rows": case["rows"], "how": case["how"], "result": got})]
         return []
     if kind == "kmer":
         # one k-mer of an alphabet encoded as a single code and read back as text
@@ -501,6 +537,25 @@ def task_kmers(stats, known_open):
     core.run_enumeration(sys.modules[__name__], cases(), stats, known_open, name="k-mers-read-back")
 
 
+@st.composite
+def kmer_mix_case(draw):
+    group = draw(st.sampled_from([["ACGT", "ACTG", "ACUG"], ["custom:XYZ", "custom:ZYX", "custom:XYZW"], ["Strand", "custom:-+."]]))
+    k = draw(st.integers(1, 4))
+    common = sorted(set.intersection(*[set(letters_of(a)) for a in group]))
+    rows = []
+    a0 = draw(st.sampled_from(group))
+    for i in range(2):
+        alpha = a0 if (i == 1 and draw(st.integers(0, 4)) == 0) else draw(st.sampled_from(group))
+        words = draw(st.lists(st.text(alphabet=common, min_size=k, max_size=k), min_size=1, max_size=5))
+        rows.append({"alpha": alpha, "words": words})
+    return {"kind": "kmer-mix", "k": k, "rows": rows, "how": draw(st.sampled_from(["list", "concat", "setitem"]))}
+
+
+def task_kmer_mix(stats, known_open, n, seed):
+    import sys
+    core.run_hypothesis(sys.modules[__name__], kmer_mix_case(), stats, known_open, max_examples=n, seed=seed)
+
+
 def task_rowlist(stats, known_open, n, seed):
     import sys
     core.run_hypothesis(sys.modules[__name__], rowlist_case(), stats, known_open, max_examples=n, seed=seed)
@@ -519,6 +574,7 @@ def tasks(tier, seed):
         out.append(("task_pairs", dict(src=a, n=n_pair, seed=seed * 1000 + 100 + i)))
     out.append(("task_labels", dict(n=n_enc, seed=seed * 1000 + 999)))
     out.append(("task_rowlist", dict(n=n_enc, seed=seed * 1000 + 998)))
+    out.append(("task_kmer_mix", dict(n=n_enc, seed=seed * 1000 + 997)))
     for j in range(4 if tier == "quick" else 16):
         out.append(("task_history", dict(n=n_enc, seed=seed * 1000 + 800 + j)))
     return out
